@@ -415,6 +415,7 @@ func init() {
 			{Name: "random", N: func(c *Ctx) int { return tierN(c, 20000, 6000000) }, Run: c20Random},
 			{Name: "number-vs-string", N: c20NumStrN, Run: c20NumStr, Exhaustive: true},
 			{Name: "deep-shared", N: deepSharedN, Run: deepSharedRun("C20"), Exhaustive: true},
+			{Name: "many-comparisons", N: c20ManyN, Run: c20Many, Exhaustive: true},
 			{Name: "shared-backing", N: func(c *Ctx) int { return tierN(c, 3000, 300000) }, Run: sharedBackingRun},
 			{Name: "matrix", Setup: c20Setup, N: func(c *Ctx) int { return tierN(c, 1500, 100000) }, Run: c20Matrix},
 		},
@@ -469,5 +470,58 @@ func c20NumStr(c *Ctx, idx int) {
 		if got := strings.ReplaceAll(ShowOut(l), " ", ""); got != `["string",false,false]` {
 			c.Report(Violation{Rule: "C20/number-equals-string", Expr: "[type(to_string(n)), n == to_string(n), to_string(n) == n]", Data: fmt.Sprintf(`{"n": json.Number(%q)}`, t), Got: ShowOut(l), Want: `["string", false, false]`, Features: map[string]string{"stream": "number-vs-string", "spelling": t}})
 		}
+	}
+}
+
+// ---- long runs of comparisons inside one evaluation
+//
+// State that a comparison keeps for the duration of an evaluation (depth counters, visited sets,
+// memo tables) must be back where it started after every comparison, whatever its outcome.  One
+// evaluation makes 70000..250000 comparisons that fail in every possible way (other key set, other
+// size, other type, other value, deeper down) and then asks questions whose answers are constants.
+func c20ManyN(c *Ctx) int { return 6 * 2 }
+
+func c20Many(c *Ctx, idx int) {
+	n := []int{70000, 250000}[idx%2]
+	if c.Tier == "thorough" {
+		n = []int{300000, 1200000}[idx%2]
+	}
+	kind := idx / 2
+	rows := make([]any, n+1)
+	for i := 0; i < n; i++ {
+		var v any
+		switch kind {
+		case 0: // same size, other key set
+			v = map[string]any{"k" + fmt.Sprint(i): "v"}
+		case 1: // same keys, other value
+			v = map[string]any{"k": json.Number(fmt.Sprint(i + 1000))}
+		case 2: // other size
+			v = []any{"x", json.Number(fmt.Sprint(i)), "y"}
+		case 3: // other type
+			v = []any{"k", "v"}[i%2]
+		case 4: // same outside, different two levels down
+			v = map[string]any{"k": []any{map[string]any{"j": json.Number(fmt.Sprint(i + 1000))}}}
+		default: // mixture
+			v = []any{map[string]any{"k" + fmt.Sprint(i): "v"}, []any{json.Number(fmt.Sprint(i))}, "s", nil, map[string]any{"k": "w", "extra": true}}[i%5]
+		}
+		rows[i] = map[string]any{"labels": v}
+	}
+	canaries := []any{map[string]any{"k": "v"}, map[string]any{"k": json.Number("7")}, []any{"x", json.Number("7")}, map[string]any{"k": "v"}, map[string]any{"k": []any{map[string]any{"j": json.Number("7")}}}, map[string]any{"k": "v"}}
+	canary := canaries[kind]
+	rows[n] = map[string]any{"labels": deepCopyAny(canary)}
+	doc := map[string]any{"rows": rows, "canary": canary, "want": deepCopyAny(canary)}
+	type q struct{ expr, want string }
+	for _, x := range []q{
+		{"length(rows[?labels == $.canary])", "1"}, {"contains(rows[*].labels, canary)", "true"}, {"rows[-1].labels == canary", "true"},
+		{"[length(rows[?labels != $.canary]), want == canary, canary == want, contains([want], canary)]", fmt.Sprintf("[%d,true,true,true]", n)},
+		{"[length(rows[?labels == $.canary]), length(rows[?labels != $.canary]), length(rows)]", fmt.Sprintf("[1,%d,%d]", n, n+1)},
+		{"rows[?labels == $.canary] | [0].labels == $.want", "true"}, {"[contains(rows[*].labels, `\"nowhere\"`), want == canary]", "[false,true]"},
+	} {
+		l := c.LibSearch(x.expr, doc)
+		got := strings.ReplaceAll(ShowOut(l), " ", "")
+		if l.Panic != nil || l.Err != nil || got != x.want {
+			c.Report(Violation{Rule: "C20/after-many-comparisons", Expr: x.expr, Data: fmt.Sprintf("%d rows whose labels all differ from the canary (kind %d), one last row equal to it", n, kind), Got: clipS(ShowOut(l), 200), Want: x.want, Features: map[string]string{"stream": "many-comparisons"}})
+		}
+		c.Nontrivial(x.expr, fmt.Sprint(idx))
 	}
 }
